@@ -444,15 +444,34 @@ impl PqMapper<RelationExpr, RelationExpr, (), ()> for SortingInference<'_> {
 
 /// Makes sure all relation instances have assigned names. Tries to infer from table references.
 fn assign_names(query: SqlQuery, ctx: &mut Context) -> SqlQuery {
+    // names written by the user, lower-cased: generated names avoid them
+    let user_names: Vec<String> = (ctx.anchor.table_decls.values())
+        .filter_map(|d| d.name.as_ref().map(|i| i.name.to_lowercase()))
+        .chain(
+            (ctx.anchor.relation_instances.values())
+                .filter_map(|i| i.table_ref.name.as_ref().map(|n| n.to_lowercase())),
+        )
+        .collect();
+    ctx.anchor.reserved_table_names.extend(user_names);
+
     // generate CTE names, make sure they don't clash
+    let mut table_name = std::mem::take(&mut ctx.anchor.table_name);
+    let reserved = ctx.anchor.reserved_table_names.clone();
+    let mut gen_name = || loop {
+        let name = table_name.gen();
+        if !reserved.contains(&name.to_lowercase()) {
+            break name;
+        }
+    };
     let decls = ctx.anchor.table_decls.values_mut();
     let mut names = HashSet::new();
     for decl in decls.sorted_by_key(|d| d.id.get()) {
         while decl.name.is_none() || names.contains(decl.name.as_ref().unwrap()) {
-            decl.name = Some(Ident::from_name(ctx.anchor.table_name.gen()));
+            decl.name = Some(Ident::from_name(gen_name()));
         }
         names.insert(decl.name.clone().unwrap());
     }
+    ctx.anchor.table_name = table_name;
 
     // generate relation variable names
     RelVarNameAssigner {
@@ -523,7 +542,14 @@ impl PqMapper<RelationExpr, RelationExpr, (), ()> for RelVarNameAssigner<'_> {
             .as_ref()
             .map_or(true, |n| self.relation_instance_names.contains(n))
         {
-            *name = Some(self.ctx.anchor.table_name.gen());
+            // (inlined `gen_table_name`: `name` borrows another field of the anchor)
+            *name = Some(loop {
+                let candidate = self.ctx.anchor.table_name.gen();
+                let reserved = &self.ctx.anchor.reserved_table_names;
+                if !reserved.contains(&candidate.to_lowercase()) {
+                    break candidate;
+                }
+            });
         }
 
         // mark name as used
